@@ -364,7 +364,20 @@ class PartialJoin(UnaryOperation):
                 # join(projection(target)), the new outer projection has to
                 # include the columns added by the join.  Note that because we
                 # require common_columns to be explicit at this point, the
-                # projection cannot change them.
+                # projection cannot change them.  This only works if the
+                # columns the projection removes cannot be confused with
+                # columns of the fixed relation.
+                if not self.fixed.columns.isdisjoint(current.target.columns - current.columns):
+                    return UnaryCommutator(
+                        first=None,
+                        second=current.operation,
+                        done=False,
+                        messages=(
+                            f"{current.operation} removes columns "
+                            f"{set(self.fixed.columns & (current.target.columns - current.columns))} "
+                            f"that are also present in {self.fixed}",
+                        ),
+                    )
                 return UnaryCommutator(
                     first=self,
                     second=Projection(frozenset(self.applied_columns(current))),
